@@ -25,6 +25,9 @@ SOURCES = [
     ("overloads", "function h(int p) -> int { return p + 1; }\nfunction h(float p) -> int { return 2; }\nfunction h(float2 p) -> int { return 3; }\nexport function f(int a, float x) -> int { return h(a) + h(x) * 10 + h(float2(x, x)) * 100; }\n"),
     ("vectors", "export function f(float4 v, float3x3 m, float3 w) -> float3 { float3 r = m * w; v.xz = v.yw; r[1] = v.x; return r + w * 2.0; }\n"),
     ("imports", 'import "la";\nimport "lb";\nimport "lc";\nexport function f(int a) -> int { return fa(a) + fb(a) * 10 + fc(a) * 100; }\n'),
+    # forced collisions: the same struct / function / global names as earlier sources, with different definitions
+    ("struct-globals-variant", "struct SG { float2 v; int extra; int n; }\nfloat g0;\nSG gs;\nint[3] ga;\nexport function f(int a) -> int { gs.n = a + 1; gs.extra = 7; ga[2] = a; g0 = 0.5; return gs.n + gs.extra + ga[2]; }\n"),
+    ("overloads-variant", "function h(int p) -> float { return 0.5; }\nfunction h(float2 p, int q) -> int { return 3; }\nexport function f(int a, float x) -> float { return h(a) + h(float2(x, x), a); }\n"),
     ("rejected-typing", "export function f(int a, float2 v) -> int { return a + v; }\n"),
     ("fails-lowering", "function g(int a) -> int;\nexport function f(int a) -> int { return a; }\n"),
 ]
